@@ -269,7 +269,18 @@ def store_subscript(I, obj, idx, v):
     ctx = I.ctx
     obj = ctx.from_val(obj) if isinstance(obj, SV) else obj
     if isinstance(obj, VDict):
-        obj.items[I.hashable(idx)] = v
+        if getattr(obj, "sym", None) is not None:
+            return map_set(I, obj.sym, idx, v)
+        try:
+            obj.items[I.hashable(idx)] = v
+        except Unsupported:
+            if obj.items:
+                raise
+            # an empty dict display that receives a symbolic key becomes a heap map (no key present yet)
+            m = ctx.alloc(None, TMap(val=ANY))
+            ctx.heap["$mhas"] = z3.Store(ctx.field_array("$mhas"), ctx.ref_id(m), z3.K(Z.Val, z3.BoolVal(False)))
+            obj.sym = m
+            return map_set(I, m, idx, v)
         return
     if isinstance(obj, VList):
         k = _const_index(idx)
@@ -1008,6 +1019,8 @@ def call_method(I, obj, name, args, kwargs):
             if isinstance(r, (list, tuple)):
                 return (VList if isinstance(r, list) else VTuple)(list(r))
             return r
+        if name == "join" and isinstance(args[0], SymSet):
+            return opaque_str(I, "str.join over a set of unknown size")
         if name == "join":
             conc = I.try_concrete_iter(args[0])
             if conc is not None and all(isinstance(x, str) for x in conc):
@@ -1038,6 +1051,19 @@ def call_method(I, obj, name, args, kwargs):
                 dflt = materialise_seq(I, dflt, obj.ty.val)
             map_set(I, obj, args[0], dflt)
             return dflt
+        if name == "pop":
+            if ctx.branch(map_has(I, obj, args[0]), "key-present"):
+                v = map_get(I, obj, args[0])
+                idt = ctx.ref_id(obj)
+                has = ctx.field_array("$mhas")
+                ctx.heap["$mhas"] = z3.Store(has, idt, z3.Store(z3.Select(has, idt), ctx.to_val(args[0]).t, z3.BoolVal(False)))
+                return v
+            if len(args) > 1:
+                return args[1]
+            raise PyRaise(I.make_exception(ExternalRef("KeyError"), [args[0]]))
+        if name == "keys":
+            hasarr = z3.Select(ctx.field_array("$mhas"), ctx.ref_id(obj))
+            return SymSet(lambda k, a=hasarr: z3.Select(a, k), "keys")
         if name == "clear":
             idt = ctx.ref_id(obj)
             has = ctx.field_array("$mhas")
